@@ -3,7 +3,7 @@ from __future__ import annotations
 
 import ast
 
-from ..absint import NONE, const, is_const, fmt, HList
+from ..absint import NONE, const, is_const, fmt, HList, mk_cmp, mk_cond
 from ..common import Report, AnalysisError, read_text
 from ..facts import facts
 from .. import nf, regexnf
@@ -88,7 +88,7 @@ def rule_titles(rep: Report, rid="C19.escape", rid_col="C19.col", rid_roles="C19
                 if t[0] == "binop" and t[1] == "Add":
                     return parts(t[2]) + parts(t[3])
                 return [t]
-            got_lists += parts(kws)
+            got_lists += mr._kw_parts(m, kws) if kws is not None else [None]
             g = lambda i: ("call", ".group", (mt, const(i)), ())
             okkt = a.get("keyword") == g(2) and a.get("text") == ("call", ".strip", (g(3),), ())
             short = lambda t: (fmt(t, I)[:24] + " ... " + fmt(t, I)[-28:]) if t is not None else None
@@ -125,15 +125,16 @@ def rule_table(rep: Report, rid="C19.table") -> None:
             pat = rm[0][0][2][0][1]
             subj = rm[0][0][2][1]
             # the untrimmed line: get_line_text(0)
-            raw_forms = [raw, ("slice", raw, const(0), NONE, NONE), ("cond", ("cmp", "Gt", const(0), ("attr", line, "indent")), trimmed, ("slice", raw, const(0), NONE, NONE))]
+            raw_forms = [raw, ("slice", raw, const(0), NONE, NONE), mk_cond(mk_cmp("Gt", const(0), ("attr", line, "indent")), trimmed, ("slice", raw, const(0), NONE, NONE))]
             ok = regexnf.same(pat, 0, r"^\s{2,5}\|") and subj in raw_forms
             found = regexnf.describe(pat) + " on " + fmt(subj, I)
         rep.ob(rid, "a table row is recognised only when the untrimmed line starts with two to five blanks and a pipe", ok, **kw,
                expected=regexnf.describe(r"^\s{2,5}\|") + " on the raw line", found=found)
         sep = [(c, p) for c, p in gs if c not in [x[0] for x in rm]]
         ok_sep = False
-        if len(sep) == 1 and sep[0][1] is False:
-            c = sep[0][0]
+        et = nf.emptiness_test(*sep[0]) if len(sep) == 1 else None
+        if et is not None and et[1] is True:
+            c = et[0]       # the collection of separator cells, required to be empty on the matching path
 
             def deep(t, seen=()):
                 for x in nf.subterms(t):
